@@ -570,6 +570,16 @@ NEGATIVE = {"neg_lifo": "InOrder", "neg_lifo2": None, "neg_duplast": "DupAll", "
 JAVA_ENV = {"JAVA_TOOL_OPTIONS": "-Xss32m"}
 
 
+import sys, time
+T0 = time.time()
+
+
+def dbg(msg):
+    if os.environ.get("C05_DEBUG"):
+        sys.stderr.write("[c05 %6.1fs] %s\n" % (time.time() - T0, msg))
+        sys.stderr.flush()
+
+
 def run_tlc_jobs(ctx, jobs, par):
     """jobs: dicts(name, cfg, simulate, depth, timeout).  Runs at most `par` at a time."""
     res, err = {}, []
@@ -578,10 +588,12 @@ def run_tlc_jobs(ctx, jobs, par):
     def one(j):
         with sem:
             try:
+                t1 = time.time()
                 res[j["name"]] = ctx.tlc("MCPipeFlow", "MCPipeFlow_%s.cfg" % j["cfg"], workers=j.get("workers", 1),
                                          simulate=j.get("simulate"), depth=j.get("depth"), timeout=j.get("timeout", 600),
                                          coverage=j.get("coverage", False), count=False, name=j["name"], env=JAVA_ENV,
                                          heap=j.get("heap", "3g"))
+                dbg("tlc %s done in %.1fs distinct=%d" % (j["name"], time.time() - t1, res[j["name"]].distinct))
             except Exception as ex:
                 err.append(ex)
     ths = [threading.Thread(target=one, args=(j,)) for j in jobs]
@@ -644,6 +656,13 @@ def shrink(ctx, binp, e, budget=40):
     """Drop commands while the trace specification still rejects the execution."""
     cur = e
     tried = 0
+    key0 = None
+    try:
+        r0 = ctx.validate_histories(TRACE[0], TRACE[1], [events(cur) + [{"e": "End"}]], tag="shr0", max_reject=1)
+        if r0:
+            key0 = failing_key(cur, r0[0][1])[0].split(";")[1]
+    except vlib.ToolError:
+        pass
     i = len(cur.cmds) - 1
     while i >= 0 and tried < budget:
         c = cur.cmds[i]
@@ -661,7 +680,9 @@ def shrink(ctx, binp, e, budget=40):
             rej = ctx.validate_histories(TRACE[0], TRACE[1], [events(cand) + [{"e": "End"}]], tag="shr", max_reject=1)
         except vlib.ToolError:
             rej = []
-        if rej:
+        # only keep a candidate that is rejected at the same kind of command (dropping a release makes
+        # the End event fail for an unrelated, uninteresting reason)
+        if rej and (key0 is None or failing_key(cand, rej[0][1])[0].split(";")[1] == key0):
             cur = cand
         i -= 1
     return cur
@@ -738,11 +759,13 @@ def run(ctx):
 
     # ---- 1. model checking + emission
     suffix = "_q" if quick else "_t"
-    jobs = [dict(name=f, cfg=f + suffix, coverage=True, timeout=1500, workers=1 if quick else 2) for f in FAMILIES]
+    # (TLC's -coverage instrumentation does not get past the initial states of this recursive
+    # interpreter: vacuity is guarded by state-count floors and by behaviour_guard on the emitted behaviours)
+    jobs = [dict(name=f, cfg=f + suffix, timeout=1500, workers=1 if quick else 2) for f in FAMILIES]
     jobs += [dict(name=n, cfg=n, timeout=300) for n in NEGATIVE]
     emit_fams = ["dup", "buffer", "tblk", "time", "chain2"] if quick else FAMILIES
     jobs += [dict(name="emit_" + f, cfg="emit_" + f, timeout=900) for f in emit_fams]
-    jobs += [dict(name="sim_all", cfg="sim_all", simulate=(400 if quick else 6000), depth=40, timeout=900)]
+    jobs += [dict(name="sim_all", cfg="sim_all", simulate=(150 if quick else 6000), depth=40, timeout=900)]
     try:
         res = run_tlc_jobs(ctx, jobs, par=(6 if quick else 8))
     finally:
@@ -754,7 +777,8 @@ def run(ctx):
     for f in FAMILIES:
         r = res[f]
         ctx.model_must_hold(r, "PipeFlow/" + f)
-        ctx.require_coverage(r, ["Next"])
+        if r.distinct < (30 if quick else 300):
+            raise vlib.ToolError("vacuity: model %s has only %d states" % (f, r.distinct))
         ctx.states += r.distinct
         ctx.transitions += r.generated
     ctx.exhaustive = True
@@ -765,6 +789,7 @@ def run(ctx):
         ctx.extra.setdefault("negative_configurations", {})[n] = r.violated
     ctx.model_must_hold(res["sim_all"], "PipeFlow/sim_all")
 
+    dbg("at: # ---- 2. spec -> code")
     # ---- 2. spec -> code
     behs, seen = [], set()
     for name in ["emit_" + f for f in emit_fams] + ["sim_all"]:
@@ -782,6 +807,7 @@ def run(ctx):
                 behs.append((b, name))
     behaviour_guard([b for b, _ in behs])
     exes = [beh_exe(b, "TLC " + n) for b, n in behs]
+    dbg("at: execute(ctx, binp, exes, jobs=8)")
     execute(ctx, binp, exes, jobs=8)
     diffs = []
     for e in exes:
@@ -794,6 +820,7 @@ def run(ctx):
         e, d = diffs[0]
         ctx.extra["first_difference"] = {"script": e.lines()[:d[0] + 1], "command": d[0], "difference": d[1][:800]}
 
+    dbg("at: # ---- 3. code -> spec")
     # ---- 3. code -> spec
     rng = vlib.Rng(ctx.seed)
     dire = directed()
@@ -813,6 +840,7 @@ def run(ctx):
     execute(ctx, binp, rnd, jobs=8)
     # every execution that differs from the prediction is judged by the abstract trace specification too
     pool = rnd + [e for e, _ in diffs[:200] if not repeats(e)]
+    dbg("at: rejected = validate_pool(ctx, pool, 'cs'")
     rejected = validate_pool(ctx, pool, "cs", jobs=(4 if quick else 8))
     rnd = dire + rnd
     ctx.evaluations += len(exes) + len(rnd)
@@ -828,6 +856,7 @@ def run(ctx):
         if 20 < len(e.cmds) < 60:
             ctx.sample({"source": "random seed=%d" % ctx.seed, "script": e.lines()[:40]}, limit=3)
             break
+    dbg("at: judge(ctx, binp, pool, rejected)")
     judge(ctx, binp, pool, rejected)
     if diffs and not ctx.violations and not ctx.known_hits:
         ctx.extra["model_drift"] = True
